@@ -84,6 +84,57 @@ def gen_source(rng) -> str:
     return s.rstrip('\n')   # tokeniter drops one final newline (keep_trailing_newline off): keep the source its own normal form
 
 
+MODEL_OPTS = [{}, {}, {'trim_blocks': True}, {'keep_trailing_newline': True}, {'trim_blocks': True, 'keep_trailing_newline': True}]
+ASP = {'block_start_string': '<%', 'block_end_string': '%>', 'variable_start_string': '${', 'variable_end_string': '}',
+       'comment_start_string': '<!--', 'comment_end_string': '-->'}
+LS = {'line_statement_prefix': '%%', 'line_comment_prefix': '##'}
+ORACLE_OPTS = [{}, {}, {}, LS, ASP]
+OPT_ATOMS = ['{%', '{{', '{#', '%}', '}}', '#}', '{%-', '{#-', '{{-', '-%}', '-#}', '-}}', '{%+', '{#+', '{%*', '{{*', '{#*',
+             ' ', '  ', '\t', '\n', '\n', '\n  ', '\n\t', 'a', 'x', '1', '"', '(', ')', '*', '-', '+', '%', '#', '{', '}',
+             '{% raw %}', '{%- raw -%}', '{%+ raw %}', '{% endraw %}', '{%- endraw %}', '{%+ endraw %}', '\n    {% endraw %}', '\n  {% raw %}',
+             '\n  {# c #}', '{# c #}', '{#- c -#}', '{% if x %}', '\n  {% endif %}', '{{ x }}', ' raw ', ' endraw ',
+             '\n%% if x', '\n  %% endif', '\n## note', ' ## c', '%%', '##']
+OPT_CORPUS = [('a\n    {% raw %}\n    r\n    {% endraw %}\nb', {'lstrip_blocks': True}),
+              ('{% raw %}x{%+ endraw %}y', {'lstrip_blocks': True}),
+              ('a\n  {# c #}\n  {%+ if x %}\n', {'lstrip_blocks': True, 'trim_blocks': True, 'keep_trailing_newline': True}),
+              ('  {% raw %} {{ x }}\n  {%- endraw -%}  z', {'lstrip_blocks': True, 'trim_blocks': True}),
+              ('t\n%% if x\n  ok ## c\n%% endif\n', dict(LS, lstrip_blocks=True)),
+              ('a\n  {% raw %}r\n  {% endraw %}\n', dict(ASP, lstrip_blocks=True))]
+
+
+def gen_source_opts(rng, opts: dict) -> str:
+    n = rng.choice([1, 2, 3, 5, 8, 12, 20])
+    s = ''.join(rng.choice(OPT_ATOMS) for _ in range(n))
+    return s if opts.get('keep_trailing_newline') else s.rstrip('\n')
+
+
+def to_delims(text: str, opts: dict) -> str:
+    if 'block_start_string' not in opts:
+        return text
+    for a, b in (('{%', opts['block_start_string']), ('%}', opts['block_end_string']), ('{{', opts['variable_start_string']),
+                 ('}}', opts['variable_end_string']), ('{#', opts['comment_start_string']), ('#}', opts['comment_end_string'])):
+        text = text.replace(a, '\0' + b + '\0')
+    return text.replace('\0', '')
+
+
+def excluded_by_upstream_change(src: str, opts: dict) -> bool:
+    """documented lexer changes of the 3.x line (design_notes/C19.md); everything else is compared"""
+    bs, vs, cs = opts.get('block_start_string', '{%'), opts.get('variable_start_string', '{{'), opts.get('comment_start_string', '{#')
+    be, ve, ce = opts.get('block_end_string', '%}'), opts.get('variable_end_string', '}}'), opts.get('comment_end_string', '#}')
+    if vs + '+' in src or cs + '+' in src:                 # 3.x: sign group after EVERY opener; 2.x: never for variables, and the
+        return True                                        # comment lstrip alternative ^[ \t]*{# has no (?!\+): '+' stays comment text
+    if not opts.get('lstrip_blocks') and bs + '+' in src:  # 2.x: '+' only as part of the lstrip regex
+        return True
+    if '+' + be in src or '+' + ce in src or '+' + ve in src:   # 3.x: '+' sign in end rules
+        return True
+    if bs + '*' in src or vs + '*' in src:                 # the auto-indent markers: outside the conservativity claim
+        return True
+    lsp = opts.get('line_statement_prefix')
+    if lsp and (lsp + '-' in src or lsp + '+' in src or lsp + '*' in src or '##-' in src or '##+' in src or '##*' in src):
+        return True                                        # 3.x: sign group after line prefixes as well
+    return False
+
+
 def split_root(toks: typing.List[typing.List[str]], err: typing.Optional[str] = None):
     """tokens yielded in the root/comment/raw states, and the number of characters consumed by each block/variable visit"""
     root, ks, i = [], [], 0
@@ -192,10 +243,13 @@ TESTS = ['defined', 'none', 'even', 'odd', 'string', 'number', 'mapping', 'itera
 
 
 class TGen:
-    def __init__(self, rng, with_star_comment: bool):
+    def __init__(self, rng, with_star_comment: bool, opts: typing.Optional[dict] = None):
         self.rng = rng
         self.star = with_star_comment
         self.macros: typing.List[str] = []
+        self.opts = opts or {}
+        self.lstrip = bool(self.opts.get('lstrip_blocks'))
+        self.ls = 'line_statement_prefix' in self.opts
 
     def ws(self, side: str) -> str:
         return '-' if self.rng.random() < 0.18 else ''
@@ -245,11 +299,15 @@ class TGen:
         return ''.join(self.rng.choice(TEXTS) for _ in range(self.rng.randrange(0, 4)))
 
     def tag(self, body: str) -> str:
-        return '{%' + self.ws('l') + ' ' + body + ' ' + self.ws('r') + '%}'
+        left = self.ws('l')
+        if not left and self.lstrip and self.rng.random() < 0.12:
+            left = '+'     # 2.x knows the '+' sign only as part of the lstrip_blocks regex; '+%}' is 3.x only and never generated
+        indent = self.rng.choice(['\n  ', '\n\t', '\n    ', '  ']) if self.rng.random() < (0.3 if self.lstrip else 0.08) else ''
+        return indent + '{%' + left + ' ' + body + ' ' + self.ws('r') + '%}'
 
     def node(self, d: int) -> str:
         r = self.rng
-        k = r.randrange(17 if d < 3 else 4)
+        k = r.randrange(18 if d < 3 else 4)
         if r.random() < 0.015:
             # near-marker junk: a sign between opener and `*` is a syntax error in BOTH engines (2.x: operator `+`/`*`, 3.x: sign then `*`)
             return r.choice([' {%+* if x %}y{% endif %}', ' {{+* x }}', ' {%-* if x %}y{% endif %}', '\t{{-* x }}'])
@@ -265,7 +323,8 @@ class TGen:
                 c = ' ' + c
             if c.endswith('-') or c.endswith('+'):
                 c += ' '
-            return '{#' + c + '#}'
+            indent = r.choice(['\n  ', '\n\t', '   ']) if r.random() < (0.3 if self.lstrip else 0.08) else ''
+            return indent + '{#' + ('-' if r.random() < 0.1 else '') + c + ('-' if r.random() < 0.1 else '') + '#}'
         if k == 5:
             s = self.tag('if ' + self.expr()) + self.body(d + 1)
             if r.random() < 0.4:
@@ -297,7 +356,10 @@ class TGen:
         if k == 11:
             return self.tag('filter ' + r.choice(['upper', 'lower', 'trim', 'replace("a", "Z")', 'length'])) + self.body(d + 1) + self.tag('endfilter')
         if k == 12:
-            return self.tag('raw') + r.choice([' {{ x }} ', '{% if %}', 'r\n', ' {# ', '{{*', ' {%* x', '']) + self.tag('endraw')
+            return self.tag('raw') + r.choice([' {{ x }} ', '{% if %}', 'r\n', ' {# ', '{{*', ' {%* x', '', '\n    raw line\n', ' {% endraw', '\n  r  ']) \
+                + self.tag('endraw')
+        if k == 16 and self.ls:
+            return '\n%% if ' + self.atom() + '\n' + self.body(d + 1) + '\n  %% endif' + r.choice(['', ' ## trailing']) + '\n' + r.choice(['', '## whole line\n'])
         if k == 13:
             return self.tag(r.choice(["include 'inc'", "include 'inc' ignore missing", "include 'nope' ignore missing", "include 'inc' without context",
                                       "include ['nope', 'inc']", "include 'nope'"]))
@@ -321,9 +383,16 @@ def gen_ctx(rng) -> dict:
             'd': rng.choice([{'k': 1}, {'k': 'v', 'z': 2}, {}]), 's': rng.choice(['hello', '', 'aXa', 'two words'])}
 
 
+DIFF_OPTS = [{}, {}, {}, LS, ASP]
+
+
 def gen_diff_case(rng, with_star_comment: bool) -> dict:
-    g = TGen(rng, with_star_comment)
-    inc = TGen(rng, with_star_comment)
+    opts = dict(rng.choice(DIFF_OPTS))
+    for flag in ('lstrip_blocks', 'trim_blocks', 'keep_trailing_newline'):
+        if rng.random() < 0.4:
+            opts[flag] = True
+    g = TGen(rng, with_star_comment, opts)
+    inc = TGen(rng, with_star_comment, opts)
     templates = {
         'inc': inc.body(1) + 'INC{{ x }}',
         'lib': '{% macro dbl(v) %}{{ v * 2 }}{% endmacro %}{% set K = 5 %}',
@@ -336,9 +405,8 @@ def gen_diff_case(rng, with_star_comment: bool) -> dict:
     elif mode == 1:
         main = g.text() + '{% block a %}' + main + '{% endblock %}' + g.text()
     templates['main'] = main
-    # source normalisation of the lexer: no trailing newline (keep_trailing_newline is off in both engines)
-    templates = {k: v.rstrip('\n') for k, v in templates.items()}
-    return {'templates': templates, 'main': 'main', 'ctx': gen_ctx(rng)}
+    templates = {k: to_delims(v, opts) for k, v in templates.items()}
+    return {'templates': templates, 'main': 'main', 'ctx': gen_ctx(rng), 'opts': opts}
 
 
 ADDR_RE = re.compile(r'(?i) at 0x[0-9a-f]+')
@@ -381,6 +449,7 @@ def shrink_diff(case: dict, failing, budget: int = 120) -> dict:
 def main(chk: core.Check, replay: typing.Optional[str] = None) -> int:
     quick = chk.tier == 'quick'
     n_lex = 2500 if quick else 30000
+    n_lex2 = 2500 if quick else 30000
     n_lp = 1200 if quick else 12000
     n_ai = 300 if quick else 3000
     n_ext = 200 if quick else 2000
@@ -388,7 +457,7 @@ def main(chk: core.Check, replay: typing.Optional[str] = None) -> int:
     rng = chk.rng
 
     # ---- 1. proof obligations against the regenerated translation --------------------------------
-    res = core.coq_check('C19', ['uni', 'jinjascan'])
+    res = core.coq_check('C19', ['uni', 'jinjascan', 'jinjarules'])
     chk.proof_coverage(res, [
         'tools/translators/gen_c19.py: root/comment/raw rule patterns of the bundled lexer (ast-rebuilt and compared with the live compiled '
         'rule), root rule of the installed stock Jinja2, do_lineprefix shape translator, autoindent constants, extension skeletons; '
@@ -450,16 +519,23 @@ def main(chk: core.Check, replay: typing.Optional[str] = None) -> int:
     corpus = ['a  {#* c #}b', 'x\n  {{* y }}\n', 'a {%- if x %} b', '{% raw %} {{ {% endraw %}', ' \n {%- raw -%} z {%- endraw -%} ',
               'a{#', '{{', 'a {# b', '{%* raw %}x{% endraw %}', ' \t{#*', '{{*', '\u00a0{%* x %}', '{# #}', '{%', 'a{{ "}}" }}b', '']
     sources = [c.rstrip('\n') for c in corpus] + [gen_source(rng) for _ in range(n_lex)]
-    lexed = run_impl('lex', sources)
+    # options that leave the ROOT rule untouched are part of the model tie: trim_blocks (\n? in the comment/raw/block end rules,
+    # regenerated as *_trim) and keep_trailing_newline (source normalisation only)
+    src_opts = [{} for _ in corpus] + [rng.choice(MODEL_OPTS) for _ in range(n_lex)]
+    sources = [(s_ + rng.choice(['', '\n', '\n\n'])) if o.get('keep_trailing_newline') else s_ for s_, o in zip(sources, src_opts)]
+    lexed = run_impl('lex', [{'src': s_, 'opts': o} for s_, o in zip(sources, src_opts)])
     model_lines, plan = [], []
-    for src, lx in zip(sources, lexed):
+    for src, lx, o in zip(sources, lexed, src_opts):
         if 'harness_failure' in lx:
             bad_model.append({'tie': 'lexer harness', 'detail': lx['harness_failure']})
             break
         rb, kb = split_root(lx['b']['toks'], lx['b']['err'])
         rs, ks = split_root(lx['s']['toks'], lx['s']['err'])
-        model_lines.append('S B %s %s' % (enc(src), ','.join(map(str, kb)) or '-'))
-        model_lines.append('S K %s %s' % (enc(src), ','.join(map(str, ks)) or '-'))
+        t = 't' if o.get('trim_blocks') else ''
+        bump('lex_model_trim_blocks', bool(t))
+        bump('lex_model_keep_trailing_newline', bool(o.get('keep_trailing_newline')))
+        model_lines.append('S B%s %s %s' % (t, enc(src), ','.join(map(str, kb)) or '-'))
+        model_lines.append('S K%s %s %s' % (t, enc(src), ','.join(map(str, ks)) or '-'))
         model_lines.append('M %s' % enc(src))
         plan.append((src, lx, rb, rs))
     mout = run_model(exe, model_lines) if ok_model else []
@@ -501,9 +577,42 @@ def main(chk: core.Check, replay: typing.Optional[str] = None) -> int:
                 if kf_live and kf_trigger(src):
                     bump('known_finding_instances_lexer')
                 else:
-                    bad_oracle.append({'level': 'lexer', 'source': src, 'bundled': eb, 'stock': es})
+                    bad_oracle.append({'level': 'lexer', 'source': src, 'opts': src_opts[i], 'bundled': eb, 'stock': es})
             bump('lex_oracle_compared')
     samples += [{'source': s} for s in sources[16:22]]
+
+    # ---- 2b. the two REAL lexers under the Environment options that reach the lexer (no model: anchors/lookaheads of the
+    #          lstrip_blocks rules are outside Regex.v): lstrip_blocks x trim_blocks x keep_trailing_newline, line statement /
+    #          comment prefixes, non-default delimiters; indented raw/endraw/comment tags and the {%+ / {%- forms ----------
+    o_cases = []
+    for src0, o in OPT_CORPUS + [(None, None)] * n_lex2:
+        if src0 is None:
+            o = dict(rng.choice(ORACLE_OPTS))
+            for flag in ('lstrip_blocks', 'trim_blocks', 'keep_trailing_newline'):
+                if rng.random() < 0.5:
+                    o[flag] = True
+            src0 = gen_source_opts(rng, o)
+        o_cases.append({'src': to_delims(src0, o), 'opts': o})
+    o_lexed = run_impl('lex', o_cases)
+    for c, lx in zip(o_cases, o_lexed):
+        if 'harness_failure' in lx:
+            bad_model.append({'tie': 'lexer harness (options)', 'detail': lx['harness_failure']})
+            break
+        bump('lexopt_sources')
+        for flag in ('lstrip_blocks', 'trim_blocks', 'keep_trailing_newline', 'line_statement_prefix', 'block_start_string'):
+            bump('lexopt_' + flag, flag in c['opts'])
+        if excluded_by_upstream_change(c['src'], c['opts']):
+            bump('lexopt_excluded_upstream_change')
+            continue
+        rb, _ = split_root(lx['b']['toks'], lx['b']['err'])
+        rs, _ = split_root(lx['s']['toks'], lx['s']['err'])
+        eb = ('err',) if lx['b']['err'] else obs_stock(rb)
+        es = ('err',) if lx['s']['err'] else obs_stock(rs)
+        bump('lexopt_compared')
+        bump('lexopt_with_raw', any(k == 'raw_begin' for k, _ in rb))
+        if eb != es:
+            bad_oracle.append({'level': 'lexer under options', 'source': c['src'], 'opts': c['opts'], 'bundled': eb, 'stock': es})
+    samples += o_cases[len(OPT_CORPUS):len(OPT_CORPUS) + 4]
 
     # ---- 3. lineprefix and auto-indent rendering vs. the model ------------------------------------------------
     lps = [['a\r\n\nb\n', '  '], ['', ' '], ['\n', 'p'], ['a\n\n', '\t'], ['x', ''], ['a\x0bb\x0cc\x1cd\x85e\u2028f', '>']] + [gen_lp(rng) for _ in range(n_lp)]
@@ -622,19 +731,23 @@ def main(chk: core.Check, replay: typing.Optional[str] = None) -> int:
         b, s = r.get('b', r), r.get('s', r)
         bump('diff_both_ok', 'ok' in b and 'ok' in s)
         bump('diff_both_fail', 'err' in b and 'err' in s)
+        for flag in ('lstrip_blocks', 'trim_blocks', 'keep_trailing_newline', 'line_statement_prefix', 'block_start_string'):
+            bump('diff_opt_' + flag, flag in c.get('opts', {}))
+        bump('diff_has_indented_endraw', bool(re.search(r'\n[ \t]+(\{%|<%)[-+]? endraw', text)))
+        bump('diff_has_plus_sign', '{%+' in text or '<%+' in text)
         for kw in ('if', 'for', 'set', 'macro', 'call', 'filter', 'raw', 'include', 'import', 'extends', 'with', '{#', '-%}', '{%-'):
             bump('diff_has_' + kw, kw in text)
         if 'ok' in b and 'ok' in s and b['ok'] == s['ok'] and len(b['ok']) > 3 and ('{%' in text):
             distinct.add(('diff', c['templates']['main']))
         if not same(b, s):
             if kf_live and kf_trigger(text):
-                fixed = {k: v.replace('{#*', '{# *') for k, v in c['templates'].items()}
+                fixed = {k: v.replace('{#*', '{# *').replace('<!--*', '<!-- *') for k, v in c['templates'].items()}
                 r2 = run_impl('diff', [dict(c, templates=fixed)])[0]
                 if same(r2['b'], r2['s']):
                     bump('known_finding_instances_render')
                     continue
             diff_bad.append((c, b, s))
-    samples += [{'template': c['templates']['main'], 'ctx': c['ctx']} for c in diff_cases[:5]]
+    samples += [{'template': c['templates']['main'], 'ctx': c['ctx'], 'opts': c['opts']} for c in diff_cases[:5]]
     if diff_bad:
         c, b, s = diff_bad[0]
 
